@@ -491,6 +491,15 @@ class GriddedPSFModel(ModelGridPlotMixin, Fittable2DModel):
         xi = np.clip(xi, x0, x1)
         yi = np.clip(yi, y0, y1)
 
+        if x1 == x0 or y1 == y0:
+            # grid with a single column and/or row: the cell has zero
+            # width in that direction, so interpolate only along the
+            # other one
+            tx = (xi - x0) / (x1 - x0) if x1 != x0 else 0.0
+            ty = (yi - y0) / (y1 - y0) if y1 != y0 else 0.0
+            return np.array([(1.0 - tx) * (1.0 - ty), tx * (1.0 - ty),
+                             (1.0 - tx) * ty, tx * ty])
+
         norm = (x1 - x0) * (y1 - y0)
         # lower-left, lower-right, upper-left, upper-right
         return np.array([(x1 - xi) * (y1 - yi), (xi - x0) * (y1 - yi),
